@@ -9,7 +9,7 @@ from ..cfg import cfg_of
 from ..excflow import _truthy_guard, enclosing_handlers, handler_catches, primitive_sites, raise_arity, raised_class, route_in_scope
 from ..model import AnalysisError, NotConst, dotted, norm, walk_own
 from ..relang import Pattern, compare
-from .common import find_calls, guards_of, key_of, leads_only_to_raise, mentions
+from .common import cmp_fact, find_calls, guards_of, key_of, leads_only_to_raise, mentions
 
 EXPLANATION = (
     "Containment, guard and shape analysis of proxy_headers.py. (R1) Every explicit raise and every raising primitive "
@@ -230,6 +230,12 @@ def rule_r3(ctx):
         ctx.r.violation(rid, key_of(f, None, "forwarded-walk"), "the Forwarded elements are not walked in reverse with `x = elem.x or x`", f.loc())
 
 
+def _ne(b):
+    """branch node: the outcome `left != right`"""
+    c = cmp_fact(b.ast, b.polarity)
+    return c is not None and c[0] == "==" and c[3] is False
+
+
 def rule_r4(ctx):
     rid = "C16.R4"
     ctx.r.rule(rid, "the refusals exist and raise: pair without '=', padded token, padded value, several values for proto and port, scheme outside {http, https}")
@@ -244,9 +250,9 @@ def rule_r4(ctx):
                 return
         ctx.r.violation(rid, key_of(f, None, "missing-refusal::" + key), what + " is not refused", f.loc())
 
-    has(lambda b: b.polarity and isinstance(b.ast, ast.Compare) and isinstance(b.ast.ops[0], ast.NotEq) and "equals" in norm(b.ast) and "'='" in norm(b.ast), "a forwarded-pair without '='", "pair-without-equals")
-    has(lambda b: b.polarity and isinstance(b.ast, ast.Compare) and isinstance(b.ast.ops[0], ast.NotEq) and norm(b.ast).replace(" ", "") in ("token.strip()!=token", "token!=token.strip()"), "a padded token", "padded-token")
-    has(lambda b: b.polarity and isinstance(b.ast, ast.Compare) and isinstance(b.ast.ops[0], ast.NotEq) and norm(b.ast).replace(" ", "") in ("value.strip()!=value", "value!=value.strip()"), "a padded value", "padded-value")
+    has(lambda b: _ne(b) and "equals" in norm(b.ast) and "'='" in norm(b.ast), "a forwarded-pair without '='", "pair-without-equals")
+    has(lambda b: _ne(b) and {cmp_fact(b.ast)[1], cmp_fact(b.ast)[2]} == {"token.strip()", "token"}, "a padded token", "padded-token")
+    has(lambda b: _ne(b) and {cmp_fact(b.ast)[1], cmp_fact(b.ast)[2]} == {"value.strip()", "value"}, "a padded value", "padded-value")
     for var, nm in (("forwarded_proto", "proto"), ("forwarded_port", "port")):
         ok = False
         for b in g.nodes:
@@ -267,7 +273,7 @@ def rule_r4(ctx):
     # scheme
     ok = False
     for b in g.nodes:
-        if b.kind == "branch" and b.polarity and isinstance(b.ast, ast.Compare) and isinstance(b.ast.ops[0], ast.NotIn) and dotted(b.ast.left) == "forwarded_proto":
+        if b.kind == "branch" and (cmp_fact(b.ast, b.polarity) or ("", "", "", None))[0] == "in" and cmp_fact(b.ast, b.polarity)[3] is False and dotted(b.ast.left) == "forwarded_proto":
             try:
                 v = p.fold(b.ast.comparators[0], f.module)
             except NotConst:
@@ -283,7 +289,7 @@ def rule_r4(ctx):
     # the scheme is lower-cased before the test and stored only after it
     st = [m for m in g.nodes if m.kind == "stmt" and isinstance(m.ast, ast.Assign) and any(isinstance(t, ast.Subscript) and isinstance(t.slice, ast.Constant) and t.slice.value == "wsgi.url_scheme" for t in m.ast.targets)]
     for m in st:
-        if any((not pol) and isinstance(t, ast.Compare) and isinstance(t.ops[0], ast.NotIn) and dotted(t.left) == "forwarded_proto" for (t, pol) in guards_of(g, m)):
+        if any((cmp_fact(t, pol) or ("", "", "", None))[0] == "in" and cmp_fact(t, pol)[3] is True and dotted(t.left) == "forwarded_proto" for (t, pol) in guards_of(g, m)):
             ctx.r.ok(rid, "wsgi.url_scheme set only after the scheme test", f.loc(m.ast))
         else:
             ctx.r.violation(rid, key_of(f, None, "scheme-stored-unchecked"), "wsgi.url_scheme is set without the scheme having been tested", f.loc(m.ast))
